@@ -171,10 +171,11 @@ func areaStrategy(r *Rng, n int, dir string) (*AreaOut, error) {
 				}
 			}
 		}
-		// input
+		// input (sometimes empty: every stored key then gets the clean decision / EmptyPut leaves nothing)
 		var ents []tent
+		emptyInput := r.Chance(8)
 		for _, k := range pool {
-			if r.Chance(40) {
+			if r.Chance(40) && !emptyInput {
 				if allKeep {
 					ents = append(ents, tent{k, tdec{"keep", nil}})
 				} else {
